@@ -322,7 +322,7 @@ def generate():
                 "Definition call_facts := mkCall %s %s %s %s %s %s %s %s.\n"
                 % (coq_bool(d["lb_first"]), d["rows"], d["cols"], d["order"], d["fun"], d["jac"], d["m_no"], d["m_with"],
                    d["ret_plain"], d["ret_full"], coq_bool(d["chk_lu"]), coq_bool(d["chk_lx"])))
-    except Unsupported as u:
+    except (Unsupported, ValueError, TypeError, IndexError, KeyError, AttributeError, AssertionError, RecursionError) as u:   # any surprise in the source = fail closed
         return failed("FitGen", str(u)) + HEAD + FALLBACK
 
 
